@@ -85,3 +85,40 @@ package proto
 //@   ensures [frame_has_header] result.0 != nil && result.1 == nil ==> len(buf.B) >= 8
 //@   ensures [frame_within_limit] result.0 != nil && result.1 == nil && c.node_maxmessagesize > 0 ==> len(buf.B) <= c.node_maxmessagesize
 //@   ensures [frame_length_is_header_field] result.0 != nil && result.1 == nil && len(buf.B) >= 6 ==> len(buf.B) == int(u32be(buf.B, 2))
+
+// C15: the requester's environment travels with a remote spawn / remote application start only when
+// the requester switched the corresponding exposure on. secOpts(core) is the node's security options.
+//@ spec func secOpts(c gen.Core) gen.SecurityOptions uninterpreted
+//@ iface gen.Core.Security
+//@   pure
+//@   ensures result == secOpts(self)
+//@ iface gen.Core.EnvList
+//@   ensures result != nil
+//@ iface gen.Core.PID
+//@   pure
+//@ iface gen.Core.MakeRef
+//@ iface gen.Core.LogLevel
+//@   pure
+//@ func (c *connection) RemoteSpawn
+//@   trusted
+//@ func (c *connection) sendAny
+//@   trusted
+//@ func (c *connection) waitResult
+//@   trusted
+//@ func (c *connection) Spawn
+//@   props C15
+//@   no_frame
+//@   requires c.core != nil
+//@   at call RemoteSpawn assert [environment_travels_only_when_spawn_exposure_is_on] (!secOpts(c.core).ExposeEnvRemoteSpawn ==> options.ParentEnv == nil) && options.ProcessOptions == caller_options && name == caller_name
+//@ func (c *connection) SpawnRegister
+//@   props C15
+//@   no_frame
+//@   requires c.core != nil
+//@   at call RemoteSpawn assert [environment_travels_only_when_spawn_exposure_is_on] (!secOpts(c.core).ExposeEnvRemoteSpawn ==> options.ParentEnv == nil) && options.Register == register && name == caller_name
+//@ func (c *connection) applicationStart
+//@   props C15
+//@   no_frame
+//@   no_safety
+//@   requires c.core != nil
+//@   at call sendAny assert [environment_travels_only_when_application_start_exposure_is_on] typeis(msg, MessageApplicationStart) && (!secOpts(c.core).ExposeEnvRemoteApplicationStart ==> msg.(MessageApplicationStart).Options.CoreEnv == nil) && msg.(MessageApplicationStart).Name == name && msg.(MessageApplicationStart).Mode == mode
+//@   ensures [refused_when_the_peer_does_not_allow_it] old(c.peer_flags.Enable) && !old(c.peer_flags.EnableRemoteApplicationStart) ==> result == gen.ErrNotAllowed
